@@ -405,6 +405,11 @@ func (p *C02) Gen(seed uint64, i int, tier string) *scen.Scenario {
 			nargs = r.Range(1, 8)
 		}
 		op.Args = g.list(nargs, 1)
+		if h := scen.Mix(seed, 1015, uint64(i), uint64(k)); h%10 == 0 {
+			// the record's last attribute (its key sorts behind the generated ones) is a value the encoders copy as
+			// it is, ending in a line break: whatever decides "is the record terminated" must not look at the value
+			op.Args = append(op.Args, scen.Arg{K: "key", S: "zzlast"}, scen.Arg{K: "bytes", X: [][]byte{[]byte("tail\n"), []byte("\n"), []byte("a\nb\n"), []byte("x\r\n")}[(h/10)%4]})
+		}
 		if strings.HasSuffix(entry, "Println") && r.Chance(1, 3) {
 			// first element is the message position: sometimes not a string
 			op.Kind = "rawargs"
